@@ -153,6 +153,20 @@ pub trait WalletBackend<'ck, C, K> where C: NodeClient + 'ck, K: Keychain + 'ck 
     fn get_acct_path(&self, label: String) -> (r: Result<Option<AcctPathMapping>, Error>)
         ensures r matches Ok(v) ==> v == (if self.state().accounts.dom().contains(label@) { Some(self.state().accounts[label@]) } else { None::<AcctPathMapping> }),
             r matches Err(e) ==> store_err(e);
+
+    // every stored label -> path mapping, in storage order
+    fn acct_path_iter<'a>(&'a self) -> (r: VIter<AcctPathMapping>)
+        ensures forall|i: int| 0 <= i < r@.len() ==> self.state().accounts.dom().contains((#[trigger] r@[i]).label@) && self.state().accounts[r@[i].label@] == r@[i],
+            forall|l: Seq<char>| #[trigger] self.state().accounts.dom().contains(l) ==> exists|i: int| 0 <= i < r@.len() && r@[i] == self.state().accounts[l];
+
+    // a write batch WITHOUT the keychain check (LMDBBackend::batch_no_mask: used where no key material is touched);
+    // unlike batch(), it is handed out whatever the token
+    fn batch_no_mask<'a>(&'a mut self) -> (r: Result<Box<dyn WalletOutputBatch<K> + 'a>, Error>)
+        ensures
+            r matches Ok(b) ==> b.base() == old(self).state() && b.view() == old(self).state() && b.result() == final(self).state(),
+            r is Err ==> final(self).state() == old(self).state(),
+            final(self).state().has_keychain == old(self).state().has_keychain,
+            final(self).state().valid_masks == old(self).state().valid_masks;
 }
 
 pub open spec fn spec_conf_height(s: WalletState) -> u64 {
@@ -189,6 +203,11 @@ pub trait WalletOutputBatch<K> where K: Keychain {
         ensures final(self).base() == old(self).base(), final(self).result() == old(self).result(),
             r is Ok ==> final(self).view() == (WalletState { child_idx: old(self).view().child_idx.insert(*parent_key_id, child_n), ..old(self).view() }),
             // S1 (checked by the extractor): callers propagate the error, so the batch is dropped uncommitted
+            r is Err ==> final(self).view() == old(self).view() && final(self).result() == final(self).base();
+
+    fn save_acct_path(&mut self, mapping: AcctPathMapping) -> (r: Result<(), Error>)
+        ensures final(self).base() == old(self).base(), final(self).result() == old(self).result(),
+            r is Ok ==> final(self).view() == (WalletState { accounts: old(self).view().accounts.insert(mapping.label@, mapping), ..old(self).view() }),
             r is Err ==> final(self).view() == old(self).view() && final(self).result() == final(self).base();
 
     fn save_last_confirmed_height(&mut self, parent_key_id: &Identifier, height: u64) -> (r: Result<(), Error>)
